@@ -13,7 +13,6 @@
 # limitations under the License.
 
 import os
-from functools import cached_property
 
 from pydjinni.packaging.aar.publish_config import AndroidArchivePublishConfig
 from pydjinni.packaging.architecture import Architecture
@@ -38,7 +37,7 @@ class AndroidArchiveTarget(PackageTarget):
         Architecture.armv8: "arm64-v8a"
     }
 
-    @cached_property
+    @property
     def gradlew_path(self):
         return (self.package_build_path / "gradlew").absolute()
 
